@@ -23,8 +23,7 @@ Full statement / proved / missing
   `C04_accepts_sound_partial` — the third law from C01_sound_partial (rule off, fragment `Ty.Frag`) for any value whose detailed type it
   is an instance of; `C04_common_unit` (Unit never absorbs: the repaired rule), `C04_common_accepts_left/right` — the first two branches
   of `commonType` are upper bounds given reflexivity; `C04_common_tail` — the Numeric/ScalarData/Scalar/Data/RichData/Any tail is an upper bound.
-* FALSE of the code, with witnesses (known findings): `C04_generalize_fails_float_inf` (the default Float is bounded by ±MaxFloat64, so it does
-  not accept Float[-Inf,Inf]); `C04_accepts_complete_fails_scalar` (Scalar has Timespan values but rejects Timespan types),
+* FALSE of the code, with witnesses (known findings): `C04_accepts_complete_fails_scalar` (Scalar has Timespan values but rejects Timespan types),
   `C04_accepts_complete_fails_object` (Object has every type value as an instance but rejects Type[..]), `C04_accepts_complete_fails_hash`
   (the detailed type of a hash with non-string keys is a commonType fold).
   `C04_ptype` — THE FIRST LAW, unconditional, for every value that holds no type value (nested heterogeneous arrays, hashes with any
@@ -99,7 +98,7 @@ theorem C04_ptype_of_family (cfg : Cfg) (sfh : Bool) (hl : ∀ s, (cfg.lower s).
 
 /-- sixth law: the generalisation (`px.Generalize`) and the generic type (`px.GenericType`) of a type accept that type — for every
     well-formed type without Variant and without Data/RichData nested inside, whose ranges are what the constructors allow (int64
-    bounds, sizes ≥ 0) and whose Float bounds are FINITE (the excluded case is the known finding C04-float-infinity) -/
+    bounds, sizes ≥ 0) and whose Float bounds are doubles, the infinities included (`C04_generalize_float_inf_repaired`) -/
 theorem C04_generalize_partial (cfg : Cfg) (sfh : Bool) (t : Ty) (wt : Ty.WF cfg t) (nt : t.NoAlias) (gt : t.GenOK) :
     asg cfg sfh (generalize t) t = true ∧ asg cfg sfh (genericType t) t = true :=
   gen_asg cfg sfh t.w t (Nat.le_refl _) wt nt gt
@@ -151,11 +150,22 @@ theorem C04_common_tail (cfg : Cfg) (sfh : Bool) (a b : Ty) :
 /-! ### the laws that are false of the code (known findings), with witnesses -/
 def idCfg4 : Cfg := { rxMatch := fun _ _ => false, lower := id }
 
-set_option exponentiation.threshold 3000 in
-theorem C04_generalize_fails_float_inf : ¬ C04_generalize_full := by
-  intro h
-  have := h idCfg4 (.float (-Fl.inf) Fl.inf) (by simp [Ty.WF])
-  simp [generalize, floatAll, asg, asgRecv, sameNullary, Fl.inf, Fl.maxFinite] at this
+/-- the former witness of finding C04-float-infinity (the default Float was bounded by ±MaxFloat64 and rejected Float[-Inf, Inf]; /repo
+    fix "an unbounded Float includes the infinities"): the generalisation of every Float type whose bounds are doubles accepts it -/
+theorem C04_generalize_float_inf_repaired (cfg : Cfg) (sfh : Bool) :
+    asg cfg sfh (generalize (.float (-Fl.inf) Fl.inf)) (.float (-Fl.inf) Fl.inf) = true ∧
+    asg cfg sfh (generalize (.float Fl.inf Fl.inf)) (.float Fl.inf Fl.inf) = true ∧
+    inst cfg sfh floatAll (.float Fl.inf) = true ∧ inst cfg sfh floatAll (.float (-Fl.inf)) = true := by
+  have inf0 : -Fl.inf ≤ Fl.inf := by
+    have h1 := Fl.maxFinite_le_inf
+    have h2 : (0 : Int) ≤ Fl.maxFinite := by decide +kernel
+    omega
+  refine ⟨(C04_generalize_partial cfg sfh _ (by simp [Ty.WF]) (by simp [Ty.NoAlias]) (by simp [Ty.GenOK])).1,
+          (C04_generalize_partial cfg sfh _ (by simp [Ty.WF]) (by simp [Ty.NoAlias]) (by simp [Ty.GenOK]; exact inf0)).1, ?_, ?_⟩
+  · unfold floatAll inst; simp only [Bool.and_eq_true, decide_eq_true_eq]
+    rw [Fl.effLo_default, Fl.effHi_default]; exact ⟨inf0, Int.le_refl _⟩
+  · unfold floatAll inst; simp only [Bool.and_eq_true, decide_eq_true_eq]
+    rw [Fl.effLo_default, Fl.effHi_default]; exact ⟨Int.le_refl _, inf0⟩
 
 theorem C04_accepts_complete_fails_scalar :
     inst idCfg4 true .scalar (.tspan 5) = true ∧ asg idCfg4 true .scalar (dtype idCfg4 true (.tspan 5)) = false := by
